@@ -5,105 +5,7 @@
 use vstd::prelude::*;
 verus! {
 
-// ------------------------------------------------------------------ prelude
-pub trait Interner: Sized + Copy {}
-pub trait HasInterner { type Interner: Interner; }
-
-#[verifier::external_body]
-#[verifier::reject_recursive_types(I)]
-pub struct Substitution<I: Interner> { _p: core::marker::PhantomData<I> }
-#[verifier::external_body]
-#[verifier::reject_recursive_types(I)]
-pub struct Constraints<I: Interner> { _p: core::marker::PhantomData<I> }
-#[verifier::external_body]
-#[verifier::reject_recursive_types(I)]
-pub struct CanonicalVarKinds<I: Interner> { _p: core::marker::PhantomData<I> }
-
-impl<I: Interner> HasInterner for Substitution<I> { type Interner = I; }
-impl<I: Interner> HasInterner for ConstrainedSubst<I> { type Interner = I; }
-
-// abstract views of the two predicates `is_trivial_and_always_true` reads
-pub uninterp spec fn spec_is_identity_subst<I: Interner>(s: Substitution<I>) -> bool;
-pub uninterp spec fn spec_constraints_empty<I: Interner>(c: Constraints<I>) -> bool;
-
-// callee contracts (assumed; chalk-ir, not verified by this unit)
-impl<I: Interner> Substitution<I> {
-    #[verifier::external_body]
-    pub fn is_identity_subst(&self, interner: I) -> (r: bool)
-        ensures r == spec_is_identity_subst(*self)
-    { unimplemented!() }
-}
-impl<I: Interner> Constraints<I> {
-    #[verifier::external_body]
-    pub fn is_empty(&self, interner: I) -> (r: bool)
-        ensures r == spec_constraints_empty(*self)
-    { unimplemented!() }
-    #[verifier::external_body]
-    pub fn empty(interner: I) -> (r: Self)
-        ensures spec_constraints_empty(r), r == spec_empty_constraints::<I>()
-    { unimplemented!() }
-}
-pub uninterp spec fn spec_empty_constraints<I: Interner>() -> Constraints<I>;
-
-// `#[derive(Clone, PartialEq)]` on the extracted types is dropped by the
-// extractor (D1); its meaning is assumed to be: clone returns an equal value,
-// `==` is structural equality of the abstract views.
-//@CLONE_EQ generics="I: Interner" type="Substitution<I>"
-//@CLONE_EQ generics="I: Interner" type="Constraints<I>"
-//@CLONE_EQ generics="I: Interner" type="CanonicalVarKinds<I>"
-//@CLONE_EQ generics="I: Interner" type="ConstrainedSubst<I>"
-//@CLONE_EQ generics="I: Interner" type="Canonical<Substitution<I>>"
-//@CLONE_EQ generics="I: Interner" type="Canonical<ConstrainedSubst<I>>"
-//@CLONE_EQ generics="I: Interner" type="Guidance<I>"
-//@CLONE_EQ generics="I: Interner" type="Solution<I>"
-
-// ------------------------------------------- real type definitions (extracted)
-//@TYPE file=chalk-ir/src/lib.rs kind=struct name=Canonical attrs="#[verifier::reject_recursive_types(T)]"
-//@TYPE file=chalk-ir/src/lib.rs kind=struct name=ConstrainedSubst attrs="#[verifier::reject_recursive_types(I)]"
-//@TYPE file=chalk-solve/src/solve.rs kind=enum name=Solution attrs="#[verifier::reject_recursive_types(I)]"
-//@TYPE file=chalk-solve/src/solve.rs kind=enum name=Guidance attrs="#[verifier::reject_recursive_types(I)]"
-
-// ------------------------------------------------------- specification level
-pub open spec fn trivial<I: Interner>(s: Solution<I>) -> bool {
-    match s {
-        Solution::Unique(c) => spec_is_identity_subst(c.value.subst) && spec_constraints_empty(c.value.constraints),
-        Solution::Ambig(_) => false,
-    }
-}
-
-pub open spec fn guidance_of<I: Interner>(s: Solution<I>) -> Guidance<I> {
-    match s {
-        Solution::Unique(c) => Guidance::Definite(Canonical { value: c.value.subst, binders: c.binders }),
-        Solution::Ambig(g) => g,
-    }
-}
-
-/// What two candidates agree on (documentation of `combine`: "always downgrade
-/// to Ambig", keeping only guidance both candidates give).
-pub open spec fn agreed<I: Interner>(g1: Guidance<I>, g2: Guidance<I>) -> Guidance<I> {
-    match (g1, g2) {
-        (Guidance::Definite(s1), Guidance::Definite(s2)) => if s1 == s2 { Guidance::Definite(s1) } else { Guidance::Unknown },
-        (Guidance::Suggested(s1), Guidance::Suggested(s2)) => if s1 == s2 { Guidance::Suggested(s1) } else { Guidance::Unknown },
-        _ => Guidance::Unknown,
-    }
-}
-
-pub open spec fn spec_combine<I: Interner>(a: Solution<I>, b: Solution<I>) -> Solution<I> {
-    if a == b { a }
-    else if trivial(a) { a }
-    else if trivial(b) { b }
-    else { Solution::Ambig(agreed(guidance_of(a), guidance_of(b))) }
-}
-
-/// "never claims more than either candidate" (C17), stated on the result only.
-pub open spec fn claims_no_more<I: Interner>(a: Solution<I>, b: Solution<I>, r: Solution<I>) -> bool {
-    &&& (a == b ==> r == a)
-    &&& (r is Unique ==> (r == a || r == b) && (a == b || trivial(r)))
-    &&& (forall|s: Canonical<Substitution<I>>| r == Solution::Ambig(Guidance::Definite(s)) ==>
-            guidance_of(a) == Guidance::Definite(s) && guidance_of(b) == Guidance::Definite(s))
-    &&& (forall|s: Canonical<Substitution<I>>| r == Solution::Ambig(Guidance::Suggested(s)) ==>
-            guidance_of(a) == Guidance::Suggested(s) && guidance_of(b) == Guidance::Suggested(s))
-}
+//@INCLUDE common/solution_prelude.rs
 
 // ------------------------------------------------------------- real functions
 impl<I: Interner> Solution<I> {
